@@ -12,7 +12,10 @@
      wtrunc w    : wf a -> enc a = Some e -> k < |e| -> dec (firstn k e) = None
      wlenient w  : wf a -> enc a = Some e /\ forall rest, dec (e ++ rest) = Some a
    Theorems named *_refuted are counterexamples to the ideal statement, true of the faithful
-   model (and replayed on the implementation by checks/c18.py). *)
+   model (and replayed on the implementation by checks/c18.py).  Theorems named
+   *_as_coded_refuted are counterexamples for a decoder/encoder as it was coded BEFORE a repair
+   (the [_gen true] variant of the definition); the repaired definition has the positive theorem
+   next to it. *)
 From DtlsV Require Import Lib.Bytes Gen.Generated Codec.C18Comb Codec.C18CombSound
   Codec.C18Rec Codec.C18RecSound Codec.C18Hs Codec.C18HsSound Codec.C18Rec13 Codec.C18Rec13Sound
   Codec.C18Ext Codec.C18ExtSound Codec.C18Kx Codec.C18KxSound Codec.C18Hello Codec.C18HelloSound Codec.C18Run.
@@ -176,11 +179,36 @@ Theorem C18_record12_fixpoint : forall n b x e, bytes_ok b = true ->
 Proof. exact record12_fixpoint_bytes. Qed.
 Print Assumptions C18_record12_fixpoint.
 
+(* ... re-encodes, unless its content is longer than the 16-bit length field can say *)
 Theorem C18_record12_reencodes : forall n b x, bytes_ok b = true ->
   record_unmarshal (w_hs 0) n b = Some x -> is_hs (snd x) = false ->
-  exists e, record_marshal (w_hs 0) x = Some e.
+  exists ce, content_enc (w_hs 0) (snd x) = Some ce /\
+             (len ce <= 65535 -> exists e, record_marshal (w_hs 0) x = Some e).
 Proof. exact record12_reencodes. Qed.
 Print Assumptions C18_record12_reencodes.
+
+(* 9ff70b9 (F77): what RecordLayer.Marshal emits declares the true length of its content *)
+Theorem C18_record12_marshal_declares_length : forall h c e, record_marshal (w_hs 0) (h, c) = Some e ->
+  exists he ce, e = he ++ ce /\ content_enc (w_hs 0) c = Some ce /\ len ce <= 65535 /\
+    enc (c_header (length (h_cid h)))
+        (mk_hdr (content_type c) (h_maj h) (h_min h) (h_epoch h) (h_seq h) (h_cid h) (len ce)) = Some he.
+Proof. exact record12_marshal_declares_length. Qed.
+Print Assumptions C18_record12_marshal_declares_length.
+
+(* before 9ff70b9: 65546 bytes of application data behind a header declaring 10; not splittable *)
+Theorem C18_record12_marshal_wrap_as_coded_refuted :
+  exists e, record_marshal_gen (w_hs 0) true (rec_wrap_witness (H := hs)) = Some e /\
+            firstn 2 (skipn 11 e) = [0; 10] /\ len e = 13 + 65546 /\
+            unpack_datagram e = None /\ record_marshal (w_hs 0) rec_wrap_witness = None.
+Proof. exact record12_marshal_wrap_as_coded_refuted. Qed.
+Print Assumptions C18_record12_marshal_wrap_as_coded_refuted.
+
+(* consequence of F35a (ContentLen ignored by Unmarshal) and 9ff70b9 *)
+Theorem C18_record12_oversize_not_reencoded :
+  exists b h d, bytes_ok b = true /\ record_unmarshal (w_hs 0) 0 b = Some (h, CAppData d) /\ len d = 65536 /\
+                record_marshal (w_hs 0) (h, CAppData d) = None.
+Proof. exact record12_oversize_not_reencoded. Qed.
+Print Assumptions C18_record12_oversize_not_reencoded.
 
 Theorem C18_record12_declared_length_refuted :
   exists b h d, record_unmarshal (w_hs 0) 0 b = Some (h, CAppData d) /\ h_len h = 0 /\ d = [1; 2; 3].
@@ -383,10 +411,67 @@ Theorem C18_certificate_request : wsound w_certreq.
 Proof. exact certreq_roundtrip. Qed.
 Print Assumptions C18_certificate_request.
 
-Theorem C18_certificate_request_declared_length_refuted :
-  exists b x, bytes_ok b = true /\ cr_dec b = Some x /\ b = [0; 0; 1; 4; 0; 0] /\ fst (snd x) = [(4, 0)].
-Proof. exact certreq_declared_length_refuted. Qed.
-Print Assumptions C18_certificate_request_declared_length_refuted.
+(* 6845684 (F75): an odd declared length of supported_signature_algorithms is refused, and the
+   schemes of an accepted message come from inside the declared vector *)
+Theorem C18_certificate_request_odd_sigalgs_rejected : forall b tys r1 sl r2,
+  dec c_cr_types b = Some (tys, r1) -> dec (c_u 2) r1 = Some (sl, r2) -> sl mod 2 = 1 -> cr_dec b = None.
+Proof. exact certreq_odd_sigalgs_rejected. Qed.
+Print Assumptions C18_certificate_request_odd_sigalgs_rejected.
+
+Theorem C18_certificate_request_sigalgs_within_vector : forall b tys sigs cas,
+  cr_dec b = Some (tys, (sigs, cas)) ->
+  exists r1 sl r2, dec c_cr_types b = Some (tys, r1) /\ dec (c_u 2) r1 = Some (sl, r2) /\ sl <= len r2 /\
+                   sigs = filter_map sig_lookup (chunk2 (take sl r2)).
+Proof. exact certreq_sigalgs_within_vector. Qed.
+Print Assumptions C18_certificate_request_sigalgs_within_vector.
+
+Theorem C18_certificate_request_declared_length_as_coded_refuted :
+  exists b x, bytes_ok b = true /\ cr_dec_gen true b = Some x /\
+    b = [0; 0; 1; 4; 0; 0] /\ fst (snd x) = [(4, 0)] /\ cr_dec b = None.
+Proof. exact certreq_declared_length_as_coded_refuted. Qed.
+Print Assumptions C18_certificate_request_declared_length_as_coded_refuted.
+
+(* 1dbb75b (F76): the encoder refuses vectors that its 16-bit length fields cannot say *)
+Theorem C18_certificate_request_enc_refuses_oversize : forall tys sigs cas,
+  65535 < N.of_nat (length sigs) * 2 \/ 65535 < cas_len cas -> cr_enc (tys, (sigs, cas)) = None.
+Proof. exact certreq_enc_refuses_oversize. Qed.
+Print Assumptions C18_certificate_request_enc_refuses_oversize.
+
+Theorem C18_certificate_request_enc_lengths : forall tys sigs cas e,
+  cr_enc (tys, (sigs, cas)) = Some e ->
+  N.of_nat (length tys) <= 255 /\ N.of_nat (length sigs) * 2 < 65536 /\ cas_len cas < 65536.
+Proof. exact certreq_enc_lengths. Qed.
+Print Assumptions C18_certificate_request_enc_lengths.
+
+Theorem C18_certificate_request_enc_wrap_as_coded_refuted :
+  exists x e, cr_wf (fst x, (fst (snd x), [])) = true /\ cr_enc_gen true x = Some e /\
+              cr_dec e = Some (fst x, (fst (snd x), [])) /\ snd (snd x) <> [] /\ cr_enc x = None.
+Proof. exact certreq_enc_wrap_as_coded_refuted. Qed.
+Print Assumptions C18_certificate_request_enc_wrap_as_coded_refuted.
+
+(* NOT REPAIRED (known findings): ServerKeyExchange cut inside its identity hint is accepted;
+   the ServerKeyExchange / ClientKeyExchange encoders do not refuse what they cannot express *)
+Theorem C18_server_key_exchange_hint_trunc_refuted :
+  exists x e k, ske_wf 6 x = true /\ fst x = Some ske_long_hint /\ ske_enc x = Some e /\
+                (k < 2 + length ske_long_hint)%nat /\ (k < length e)%nat /\
+                ske_dec 6 (firstn k e) = Some (None, (3, (29, (repeat 0 (N.to_nat 32), (0, (0, [])))))).
+Proof. exact ske_hint_trunc_refuted. Qed.
+Print Assumptions C18_server_key_exchange_hint_trunc_refuted.
+
+Theorem C18_server_key_exchange_enc_wrap_refuted :
+  (exists x e, ske_enc x = Some e /\ len (fst (snd (snd (snd x)))) = 256 /\ ske_wf 4 x = false /\ ske_dec 4 e = None) /\
+  (exists x e, ske_enc x = Some e /\ fst x = Some (repeat 104 (N.to_nat 65536)) /\ ske_wf 2 x = false /\
+               ske_dec 2 e = None).
+Proof. exact ske_enc_wrap_refuted. Qed.
+Print Assumptions C18_server_key_exchange_enc_wrap_refuted.
+
+Theorem C18_client_key_exchange_enc_outside_domain_refuted :
+  (exists x e, cke_enc x = Some e /\ fst x = None /\ cke_wf 6 x = false /\ cke_dec 6 e = None) /\
+  (exists x e y, cke_enc x = Some e /\ cke_wf 2 x = false /\ cke_dec 2 e = Some y /\ snd x <> None /\ snd y = None) /\
+  (exists x e, cke_enc x = Some e /\ fst x = Some (repeat 105 (N.to_nat 65536)) /\ cke_wf 2 x = false /\
+               cke_dec 2 e = Some (Some [], None)).
+Proof. exact cke_enc_outside_domain_refuted. Qed.
+Print Assumptions C18_client_key_exchange_enc_outside_domain_refuted.
 
 (* ================================================================== extensions *)
 
